@@ -452,8 +452,65 @@ def gen_same_base(rng, tier):
         if rng.random() < 0.3:
             yield Case("numcmp", [a, b])
 
+def gen_encl(rng, tier):
+    """the enclosure hypothesis of the theorems, checked on the REAL f32 estimator (`log2_bounds`) of every
+    big-number kind: values of every family, bit lengths up to 2^20, exponents where `e as f32` rounds"""
+    def ok(a):
+        t = a.split(":")
+        if t[0] == "p":
+            return False
+        return not (t[0] == "f" and _ival(t[2]) == 0 and int(t[3]) != 0)
+    seen = set()
+    for v in base_values(rng, tier):
+        for r in reps(v, rng):
+            if ok(r) and r not in seen:
+                seen.add(r)
+                yield Case("log2encl", [r])
+    Ls = [24, 25, 63, 64, 65, 127, 128, 129, 1000, 4097, 1 << 16, (1 << 16) + 1] + ([1 << 20] if tier == "thorough" else [])
+    for L in Ls:
+        for pat in ("pow2", "pow2m1", "pow2p1", "rand", "top24", "top24m"):
+            if pat == "pow2": x = 1 << (L - 1)
+            elif pat == "pow2m1": x = (1 << L) - 1
+            elif pat == "pow2p1": x = (1 << (L - 1)) + 1
+            elif pat == "top24": x = ((rng.getrandbits(24) | (1 << 23)) << max(L - 24, 0)) if L >= 24 else 1 << (L - 1)
+            elif pat == "top24m": x = (((rng.getrandbits(24) | (1 << 23)) + 1) << max(L - 24, 0)) - 1 if L >= 24 else 1 << (L - 1)
+            else: x = rng.getrandbits(L) | (1 << (L - 1))
+            yield Case("log2encl", ["n:%s:U" % hx(x)])
+            yield Case("log2encl", ["n:%s:I" % hx(-x)])
+            y = rng.getrandbits(max(L // 2, 2)) | 1
+            yield Case("log2encl", ["q:%s/%s:R" % (hx(x), hx(y))])
+            yield Case("log2encl", ["q:%s/%s:X" % (hx(-y), hx(x))])
+            if L <= 4097:
+                for B in (2, 10, 16):
+                    yield Case("log2encl", [fenc(B, x, rng.choice([0, 3, -7, 1000, -1000]), prec=0)])
+    es = [0, 1, -1, 100, -100, 10 ** 6, -10 ** 6, (1 << 24) - 1, 1 << 24, (1 << 24) + 1, (1 << 24) + 3, (1 << 25) + 2, (1 << 25) + 6,
+          (1 << 26) + 4, (1 << 26) + 12, (1 << 27) + 8, 10 ** 9, 10 ** 12 + 1, 10 ** 15 + 7, (1 << 40) + (1 << 16), (1 << 62) + 12345]
+    n = 4 if tier == "quick" else 40
+    for e in es:
+        for sg in (1, -1):
+            for B in (2, 10, 16):
+                for _ in range(n):
+                    s = rng.choice([1, 3, 7, 9, 999, (1 << 24) - 1, (1 << 24) + 1, rng.getrandbits(64) | 1, rng.getrandbits(200) | 1])
+                    if B == 10 and s % 5 == 0:
+                        s += 2
+                    ee = sg * e + rng.choice([0, 0, 1, -1, 2, 5])
+                    yield Case("log2encl", [fenc(B, s * rng.choice([1, -1]), ee, prec=0)])
+
+def gen_overflow(rng, tier):
+    """DEFECT E directed: |exponent| * bit_len(B) around isize::MAX against f32/f64"""
+    for B, bl in ((2, 2), (10, 4), (16, 5)):
+        lim = (1 << 63) // bl
+        for e in (lim - 2, lim - 1, lim, lim + 1, lim + 1000, (1 << 62) + 5, (1 << 63) - 1):
+            for sg in (1, -1):
+                for f in ("p:f64:4004000000000000", "p:f32:40200000", "p:f64:c004000000000000", "p:f64:7fefffffffffffff", "p:f32:1"):
+                    x = fenc(B, rng.choice([1, -1, 3, -7]), sg * e, prec=0)
+                    yield Case("numcmp", [x, f])
+                    yield Case("numcmp", [f, x])
+
 def generate(rng, tier):
     yield from gen_special(rng, tier)
+    yield from gen_encl(rng, tier)
+    yield from gen_overflow(rng, tier)
     yield from gen_equal_adjacent(rng, tier)
     yield from gen_far(rng, tier)
     yield from gen_hash_corner(rng, tier)
